@@ -552,7 +552,9 @@ inline void check_delivery(vh::Case &c, const Cfg &cfg, const History &h)
       c.tag(why == "queue could be full" ? "drop-queue-full" : "drop-shutdown-race");
     }
     // producers never wait for the exporter
-    if (cfg.export_latency_us >= 100000)
+    // (virtual time only advances while NO thread is runnable, plus 100 ns per clock read, so a
+    // produce call that does not block spans next to no virtual time whatever the schedule)
+    if (cfg.export_latency_us >= 3000)
       VH_CHECK(c, r.ret_ns - r.call_ns < static_cast<uint64_t>(cfg.export_latency_us) * 500,
                "producer call p" << r.producer << "#" << r.seq << " took " << (r.ret_ns - r.call_ns)
                                  << " virtual ns: it waited for the exporter");
@@ -674,6 +676,8 @@ inline void common_tags(vh::Case &c, const Cfg &cfg, const History &h)
     c.tag("destructor-only-shutdown");
   if (cfg.export_latency_us >= 100000)
     c.tag("export-150ms");
+  if (cfg.export_latency_us >= 3000)
+    c.tag("export-slow(>=3ms)");
   if (h.rs.forced_switches)
     c.tag("quantum-switch");
 }
